@@ -1,6 +1,8 @@
 import HdVerif.Model.Tiling
 import HdVerif.Generated.T7j
 import HdVerif.Generated.T7k
+import HdVerif.Generated.T7l
+import HdVerif.Generated.T7m
 /-! C12: `utils.compute_plane_position_slide_per_frame` — the per-frame data of a TILED_FULL image wrapped into plane positions.
 The element built per item is regenerated (`Gen.slidePerFrameItem`, T7j: which components of the item become the pixel matrix
 position and which the image position; the comprehension itself — one element per item, in order, no condition — is pinned). -/
